@@ -287,6 +287,51 @@ func (g *gen) churnCase() Case {
 	return c
 }
 
+// siblingCases: two subscription paths whose index strings are related as
+// strings but not as paths (a/b then a/bb, b[k=1] then b[k=10], both orders),
+// with leaves that only the longer-named one matches.
+func siblingCases(emit func(Case)) int {
+	var init []Step
+	ts := int64(0)
+	put := func(p []Elem, v int64) {
+		ts++
+		init = append(init, Step{K: "update", N: &Noti{TS: ts, Prefix: GPath{Target: "t1"}, Upds: []Upd{{Path: GPath{Elems: p}, Val: v}}}})
+	}
+	put([]Elem{el("a"), el("b")}, 1)
+	put([]Elem{el("a"), el("bb")}, 2)
+	put([]Elem{el("b", "k", "1"), el("a")}, 3)
+	put([]Elem{el("b", "k", "10"), el("a")}, 4)
+	put([]Elem{el("ab"), el("a")}, 5)
+	pairs := [][2][]Elem{
+		{{el("a"), el("b")}, {el("a"), el("bb")}},
+		{{el("b", "k", "1")}, {el("b", "k", "10")}},
+		{{el("a")}, {el("ab")}},
+		{{el("b", "k", "1"), el("a")}, {el("b", "k", "10"), el("*")}},
+	}
+	n := 0
+	for _, pr := range pairs {
+		for order := 0; order < 2; order++ {
+			for _, tgt := range []string{"t1", "*"} {
+				for _, mode := range []int{1, 2} {
+					a, b := pr[0], pr[1]
+					if order == 1 {
+						a, b = b, a
+					}
+					c := Case{Targets: []string{"t1", "t2"}, Req: &Req{HasSub: true, Prefix: &GPath{Target: tgt}, Mode: mode,
+						Subs: []*GPath{{Elems: a}, {Elems: b}}}}
+					c.Ops = append(append([]Step{}, init...), Step{K: "sub"})
+					if mode == 2 {
+						c.Ops = append(c.Ops, Step{K: "poll"})
+					}
+					emit(c)
+					n++
+				}
+			}
+		}
+	}
+	return n
+}
+
 func familyOf(base string, c Case) string {
 	for _, o := range c.Ops {
 		if o.Burst != 0 {
@@ -313,7 +358,7 @@ func nontrivial(c *Case) bool {
 func main() {
 	o := vh.ParseFlags()
 	quietLogs()
-	meta := vh.NewMeta("corpus cases; grid: one fixed two-target cache (origins, keyed element, atomic container), every ONCE query path over {a,b,*} of length 0..3 x origin placement {none, prefix oc, path oc, prefix foo, first element in the prefix} x target {t1,*}; random: 1-3 targets, 2-10 initial notifications (single/multi update, atomic, delete, keyed elements, origins in prefix or path), one request (ONCE/POLL/few STREAM; 1-3 subscription paths of length 0..3 with globs at any position, origins in prefix/path incl. conflicts, missing path/prefix/target, unknown target, updates_only), POLL: 0-3 triggers with 0-2 cache edits (updates, deletes, target removal) before each; in 1/6 of the ONCE/POLL cases the walk is overlapped by 2-6 concurrent single-update/delete writes (one writer goroutine per target), judged by the weak clause; 1/3 of the POLL and 1/6 of the ONCE cases yield ~40us at the queue's insert schedule point (between Insert's checks and the locked insert) so that the sender can drain and park in between; idle-timeout: 22 (thorough 160) POLL/STREAM scripts on a server with WithTimeout(100ms) in which the client idles 320 ms after a received sync before the next trigger / update / EOF; target-churn: 120 (thorough 1500) ONCE/POLL scripts, 80% on target *, whose walks (initial and poll rounds) are overlapped by a loop of Cache.Remove/Cache.Add of a spare target plus 0-2 leaf writes. distinct = distinct inputs; non-trivial = the RPC ended OK and at least one update was delivered")
+	meta := vh.NewMeta("corpus cases; grid: one fixed two-target cache (origins, keyed element, atomic container), every ONCE query path over {a,b,*} of length 0..3 x origin placement {none, prefix oc, path oc, prefix foo, first element in the prefix} x target {t1,*}; sibling-prefix: 32 ONCE/POLL requests with two paths related as strings but not as paths (a/b & a/bb, b[k=1] & b[k=10], a & ab; both orders); random: 1-3 targets, 2-10 initial notifications (single/multi update, atomic, delete, keyed elements, origins in prefix or path), one request (ONCE/POLL/few STREAM; 1-3 subscription paths of length 0..3 with globs at any position, origins in prefix/path incl. conflicts, missing path/prefix/target, unknown target, updates_only), POLL: 0-3 triggers with 0-2 cache edits (updates, deletes, target removal) before each; in 1/6 of the ONCE/POLL cases the walk is overlapped by 2-6 concurrent single-update/delete writes (one writer goroutine per target), judged by the weak clause; 1/3 of the POLL and 1/6 of the ONCE cases yield ~40us at the queue's insert schedule point (between Insert's checks and the locked insert) so that the sender can drain and park in between; idle-timeout: 22 (thorough 160) POLL/STREAM scripts on a server with WithTimeout(100ms) in which the client idles 320 ms after a received sync before the next trigger / update / EOF; target-churn: 120 (thorough 1500) ONCE/POLL scripts, 80% on target *, whose walks (initial and poll rounds) are overlapped by a loop of Cache.Remove/Cache.Add of a spare target plus 0-2 leaf writes. distinct = distinct inputs; non-trivial = the RPC ended OK and at least one update was delivered")
 	e := &emitter{dir: o.Out, cf: newCaseFile(), meta: meta, limit: 255, require: "Subscribe.C05Check", nontriv: nontrivial}
 
 	if o.Replay != "" {
@@ -352,6 +397,7 @@ func main() {
 	}
 	ng := gridCases(func(c Case) { e.add("grid", c) })
 	meta.Extra["grid_cases"] = ng
+	meta.Extra["sibling_cases"] = siblingCases(func(c Case) { e.add("sibling-prefix", c) })
 
 	r := vh.NewRand(o.Seed)
 	nrand := 2300
